@@ -24,7 +24,8 @@ out += ["", "Checks that missed a change when it arrived and were strengthened b
         "(persistent caching proxies on a shared object), C36 (bus-side AlreadyOwner, guided histories), and in the second",
         "batch (names ending in `b`) C26 (handlers that depend on a later call), C38 (queue exactly full at the failure,",
         "late consumer), C39 (several pending graceful shutdowns), C25 (an outer manager above the followed one), C29",
-        "(slow property setter on the no-spawn interface), C37 (bus refusing AddMatch).  After that every kept change is caught",
+        "(slow property setter on the no-spawn interface), C37 (bus refusing AddMatch), C36 (NameAcquired right behind the",
+        "InQueue reply), C33 (argument-filtered signal streams).  After that every kept change is caught",
         "by the quick tier at VERIF_SEED=0 (SWEEP.txt).", ""]
 open(os.path.join(root, "README.md"), "w").write("\n".join(out))
 print(len(rows), "seeded changes")
